@@ -133,6 +133,12 @@ struct Scene {
         virtual_ptr<B, P> pb(b);
         r[2] = M3::fn(pb);
         r[3] = (q.get() == &as_a) ? 1 : 0;
+        r[4] = safe1(a); // no definition: the error handler runs in this thread too
+        try {
+            r[5] = M2::fn(c, 1, a);
+        } catch (Thrown& t) {
+            r[5] = -t.status;
+        }
     }
     static void t3(int* r) {
         auto pf = M1::fn.resolve(c);
@@ -141,6 +147,8 @@ struct Scene {
         r[1] = M3::fn(fin);
         r[2] = M2::fn(a, 3, b);
         r[3] = M1::fn(c);
+        r[4] = safe1(d); // error paths run concurrently with T1's and T2's
+        r[5] = safe1(a);
     }
 };
 
